@@ -3,7 +3,7 @@ import pipeline, list_common
 
 
 def run(chk, tier, seed):
-    pipeline.run_container(chk, tier, seed, list_common, owned={"result", "state", "crash", "timeout"})
+    pipeline.run_container(chk, tier, seed, list_common, owned={"result", "state"})
     chk.cov["exhaustive"] = not chk.infra
     chk.cov["rule"] = ("every transition of the List.tla model (all list operations x every index in [-n-2,n+2] x three value kinds "
                        "x size limits; queue/stack/grow front-ends as instances) replayed on the real qlist/qqueue/qstack/qgrow under "
